@@ -238,6 +238,20 @@ Proof.
 Qed.
 Print Assumptions C19_conv_from_source.
 
+(* ... and a statement in which the model no longer occurs: what one printed function returns, given to the printed
+   function of the other direction, is the input again -- uint32, float32 patterns and int32, both word orders *)
+Theorem C19_printed_conversions_inverse :
+  (forall us, Forall u32_ok us -> len_ok2 us ->
+     (exists rs, srun go_modbus_Uint32ToRegs [map Z.of_N us] = Some rs /\ srun go_modbus_RegsToUint32 [rs] = Some (map Z.of_N us)) /\
+     (exists rs, srun go_modbus_Uint32ToRegsSwapRegs [map Z.of_N us] = Some rs /\ srun go_modbus_RegsToUint32SwapWords [rs] = Some (map Z.of_N us)) /\
+     (exists rs, srun go_modbus_Float32ToRegs [map Z.of_N us] = Some rs /\ srun go_modbus_RegsToFloat32 [rs] = Some (map Z.of_N us)) /\
+     (exists rs, srun go_modbus_Float32ToRegsSwapWords [map Z.of_N us] = Some rs /\ srun go_modbus_RegsToFloat32SwapWords [rs] = Some (map Z.of_N us))) /\
+  (forall zs, Forall i32_ok zs -> len_ok2 zs ->
+     (exists rs, srun go_modbus_Int32ToRegs [zs] = Some rs /\ srun go_modbus_RegsToInt32 [rs] = Some zs) /\
+     (exists rs, srun go_modbus_Int32ToRegsSwapWords [zs] = Some rs /\ srun go_modbus_RegsToInt32SwapWords [rs] = Some zs)).
+Proof. split; [exact printed_uint32_inverse|exact printed_int32_inverse]. Qed.
+Print Assumptions C19_printed_conversions_inverse.
+
 (* the premises are satisfiable and the printed functions run: two registers to one value and back, both word orders *)
 Example C19_conv_from_source_example :
   srun go_modbus_RegsToUint32 [[4660; 22136]%Z] = Some [305419896%Z] /\
